@@ -64,6 +64,10 @@ type Conn struct {
 	WriteFailAt int
 	// WriteStallAt >= 0: the peer stops reading after that many bytes (write-side stall).
 	WriteStallAt int
+	// FailInData, when set, is asked before every write that arrives during a DATA phase: txn is the transaction,
+	// have the content bytes received so far, n the size of this write. It returns how many bytes of this write the
+	// transport still accepts before failing, or -1 for no failure.
+	FailInData func(txn, have, n int) int
 	// Skew is added to the wall clock when deadlines are evaluated (virtual idle time).
 	Skew time.Duration
 	// InjectAfterStartTLS is appended in clear right after the 220 reply to STARTTLS (plaintext injection).
@@ -175,7 +179,15 @@ func (c *Conn) Write(p []byte) (int, error) {
 		}
 		return k, io.ErrClosedPipe
 	}
-	if c.WriteFailAt >= 0 && c.Written+len(p) > c.WriteFailAt {
+	if c.FailInData != nil && c.tlsSide == nil {
+		if in, have := c.S.InData(); in {
+			if k := c.FailInData(c.S.CurTxn(), have, len(p)); k >= 0 && k <= len(p) {
+				p = p[:k]
+				ferr = errors.New("write fakeconn: connection reset by peer")
+			}
+		}
+	}
+	if ferr == nil && c.WriteFailAt >= 0 && c.Written+len(p) > c.WriteFailAt {
 		k := c.WriteFailAt - c.Written
 		if k < 0 {
 			k = 0
